@@ -87,7 +87,20 @@ impl Check for C17 {
             };
         }
         let trailer = if rng.chance(1, 2) { rng.range(0, 40) } else { 0 };
-        let stream = make_stream(rng, pair, l, trailer);
+        let mut stream = make_stream(rng, pair, l, trailer);
+        let mut l = l;
+        if index >= systematic && rng.chance(1, 3) {
+            // a structured header instead: well-formed TLVs (realistic types, arbitrary values),
+            // so that whatever a tree does with TLV contents on completion is exercised
+            let (w, _) = crate::wire::gen_v2(rng, false);
+            if w.bytes.len() >= 16 {
+                l = u16::from_be_bytes([w.bytes[14], w.bytes[15]]) as usize;
+                stream = w.bytes;
+                let extra = rng.range(0, 20);
+                stream.extend(rng.bytes(extra));
+                sc.sub = "structured".into();
+            }
+        }
         sc.intended_header_len = 16 + l;
         sc.set_meta("declared", l as i64);
         // per-read caps: how much the transport is willing to hand over to each read
